@@ -7,8 +7,14 @@
 (*         IPv6 layer's HopByHop field - decodeIPv6 lists it a second time; 2: the same   *)
 (*         in a jumbogram, IPv6 length 0; else 0), the decode                             *)
 (*         failure's error text digest (plain and as the parser wraps a panic), Truncated *)
-(*   res : what DecodeLayers reported through 4 containers x IgnoreUnsupported (identical *)
-(*         observations merged; who = container + 4*ignore): decoded types, every         *)
+(*   res : what DecodeLayers reported through 4 containers x IgnoreUnsupported with the   *)
+(*         container filled by Put and installed by SetDecodingLayerContainer (who =      *)
+(*         container + 4*ignore), with an empty container installed and the layers added  *)
+(*         by AddDecodingLayer in the order `plan.order` - the decoder of the parser's    *)
+(*         first type first / in the middle / last - (who = 8 + container), and with the  *)
+(*         layers behind `plan.cut` added after a first decode (who = 12 + container;     *)
+(*         that first decode is in `mid` and judged against the smaller set); identical   *)
+(*         observations are merged.  Per observation: decoded types, every                *)
 (*         DecodeFromBytes call the parser made (type, ok, NextLayerType, payload empty,  *)
 (*         digests), error kind, unsupported type, error text digest, Truncated           *)
 (* Parser!LeadingRun decides.  What eager packet decoding did is reconstructed from the   *)
@@ -54,9 +60,8 @@ Bookkeeping(e, r, S) ==
      /\ r.err # "unsup" => r.ut = ZeroName
 
 \* <<reason, where, after>> for one observation r under IgnoreUnsupported = ig
-JudgeRun(e, r, ig) ==
-  LET S == Range(e.s)
-      P == SelectSeq(e.pkt.ls, LAMBDA x : x.emb = 0)
+JudgeRun(e, S, r, ig) ==
+  LET P == SelectSeq(e.pkt.ls, LAMBDA x : x.emb = 0)
       n == Len(P)
       failed == e.pkt.fail
       k == Len(r.types)
@@ -95,8 +100,11 @@ Judge(e) ==
   IF e.op = "hang" THEN <<"hang", "", "">>
   ELSE IF e.op # "rl" THEN <<"incomplete-event", "", "">>
   ELSE IF e.pkt.panic # "" THEN <<"panic", "NewPacket", "">>
-  ELSE IF UNION {Range(r.who) : r \in Range(e.res)} # 0..7 THEN <<"incomplete-event", "", "">>
-  ELSE LET vs == UNION {{JudgeRun(e, r, w >= 4) : w \in Range(r.who)} : r \in Range(e.res)}
+  ELSE IF UNION {Range(r.who) : r \in Range(e.res)} # 0..15 THEN <<"incomplete-event", "", "">>
+  ELSE IF UNION {Range(r.who) : r \in Range(e.mid.res)} # 0..3 THEN <<"incomplete-event", "", "">>
+  ELSE LET vs == UNION {{JudgeRun(e, Range(e.s), r, w \in 4..7) : w \in Range(r.who)} : r \in Range(e.res)}
+                 \* the decode made when only the first `cut` layers of the plan had been added
+                 \cup {JudgeRun(e, Range(e.mid.s), r, FALSE) : r \in Range(e.mid.res)}
            worst == vs \ {<<"ok", "", "">>}
        IN IF worst = {} THEN <<"ok", "", "">>
           ELSE CHOOSE v \in worst : TRUE
